@@ -792,3 +792,396 @@ Proof.
   - apply Below_ddel; auto.
   - exact B2.
 Qed.
+
+(* ------------------------------------------------------------------ prune *)
+Lemma remove1_filter o l : NoDup l -> remove1 o l = filter (fun x => negb (Nat.eqb o x)) l.
+Proof.
+  induction 1 as [|a r Hn Hd IH]; cbn; auto.
+  destruct (Nat.eqb_spec o a) as [->|N]; cbn.
+  - symmetry. apply filter_all_true. intros x Hx.
+    apply negb_true_iff, Nat.eqb_neq. intros ->. auto.
+  - f_equal. apply IH.
+Qed.
+Lemma prunable_Lab n m : Lab n = Lab m -> prunable n = prunable m.
+Proof. unfold Lab, prunable, is_or, is_and. intros E. inversion E. congruence. Qed.
+
+Lemma WF_prune_loop : forall l s, WF s -> NoDup l -> (forall o, In o l -> In o (g_nodes (s_g s))) ->
+  let s' := fold_left (fun s o => if prunable (s_nh s o) then fst (remove_node s o) else s) l s in
+  WF s' /\
+  g_nodes (s_g s') = filter (fun o => negb (memn o l && prunable (s_nh s o))) (g_nodes (s_g s)) /\
+  (forall x, Lab (s_nh s' x) = Lab (s_nh s x)).
+Proof.
+  induction l as [|o r IH]; intros s W Nd Hl; cbn [fold_left].
+  - cbn. split; [auto|]. split; [|auto]. symmetry. apply filter_all_true. auto.
+  - inversion Nd as [|? ? Hno Hnd]; subst.
+    assert (Ho : In o (g_nodes (s_g s))) by (apply Hl; left; auto).
+    set (s1 := if prunable (s_nh s o) then fst (remove_node s o) else s).
+    assert (W1 : WF s1) by (unfold s1; destruct (prunable (s_nh s o)); auto; apply WF_remove_node; auto).
+    assert (L1 : forall x, Lab (s_nh s1 x) = Lab (s_nh s x)).
+    { intros x. unfold s1. destruct (prunable (s_nh s o)); auto. apply remove_node_lab. }
+    assert (NdN : NoDup (g_nodes (s_g s))) by apply W.
+    assert (N1 : g_nodes (s_g s1) = if prunable (s_nh s o) then filter (fun x => negb (Nat.eqb o x)) (g_nodes (s_g s))
+                                    else g_nodes (s_g s)).
+    { unfold s1. destruct (prunable (s_nh s o)); auto.
+      destruct (WF_remove_node s o W Ho) as [_ ->]. apply remove1_filter; auto. }
+    assert (Hl1 : forall x, In x r -> In x (g_nodes (s_g s1))).
+    { intros x Hx. rewrite N1. assert (In x (g_nodes (s_g s))) by (apply Hl; right; auto).
+      destruct (prunable (s_nh s o)); auto. apply filter_In. split; auto.
+      apply negb_true_iff, Nat.eqb_neq. intros ->. auto. }
+    destruct (IH s1 W1 Hnd Hl1) as (W' & N' & L').
+    split; [exact W'|]. split.
+    + cbn zeta in N'. fold s1. rewrite N'. rewrite N1.
+      destruct (prunable (s_nh s o)) eqn:Po.
+      * rewrite filter_filter. apply filter_ext_in. intros x Hx. rewrite (prunable_Lab _ _ (L1 x)).
+        cbn [memn existsb]. fold (memn x r).
+        destruct (Nat.eqb_spec o x), (Nat.eqb_spec x o); subst; try congruence; rewrite ?Po;
+          repeat match goal with |- context [memn ?y r] => destruct (memn y r) | |- context [prunable ?n] => destruct (prunable n) end; cbn; auto.
+      * apply filter_ext_in. intros x Hx. rewrite (prunable_Lab _ _ (L1 x)).
+        cbn [memn existsb]. fold (memn x r).
+        destruct (Nat.eqb_spec x o); subst; rewrite ?Po;
+          repeat match goal with |- context [memn ?y r] => destruct (memn y r) | |- context [prunable ?n] => destruct (prunable n) end; cbn; auto.
+    + intros x. cbn zeta in L'. fold s1. rewrite L'. apply L1.
+Qed.
+
+Lemma WF_prune s : WF s ->
+  WF (prune s) /\
+  g_nodes (s_g (prune s)) = filter (fun o => negb (prunable (s_nh s o))) (g_nodes (s_g s)) /\
+  (forall x, Lab (s_nh (prune s) x) = Lab (s_nh s x)).
+Proof.
+  intros W. destruct (WF_prune_loop (g_nodes (s_g s)) s W) as (A & B & L); auto. { apply W. }
+  split; [exact A|]. split; [|exact L].
+  unfold prune. rewrite B. apply filter_ext_in. intros x Hx.
+  apply memn_In in Hx. rewrite Hx. reflexivity.
+Qed.
+
+(* ------------------------------------------------------------------ replacing the heaps under frames *)
+Lemma WF_heaps s nh' ah' :
+  WF s -> NFrame (s_nh s) nh' -> (forall b, a_id (ah' b) = a_id (s_ah s b)) ->
+  AttI (g_nodes (s_g s)) (g_atts (s_g s)) (compf nh') (reachedf ah') (entryf ah') ->
+  WF (mkSt nh' ah' (s_nn s) (s_na s) (s_g s)).
+Proof.
+  intros [A S T I1 I2 I3 B1 B2] F G T'. constructor; cbn; auto.
+  - eapply Struct_ext; [| |exact S]; intros o Ho; unfold ch_of, pa_of; cbn; apply F.
+  - eapply Idx_ext; [|exact I1]. intros o Ho. unfold id_of; cbn. apply F.
+  - eapply Idx_ext; [|exact I2]. intros o Ho. unfold fn_of; cbn. f_equal. apply F.
+  - eapply Idx_ext; [|exact I3]. intros b Hb. unfold aid_of; cbn. apply G.
+Qed.
+
+Lemma WF_compromise s a o :
+  WF s -> In a (g_atts (s_g s)) -> In o (g_nodes (s_g s)) ->
+  WF (let '(nh, ah) := compromise (s_nh s) (s_ah s) a o in mkSt nh ah (s_nn s) (s_na s) (s_g s)).
+Proof.
+  intros W Ha Ho. destruct (compromise (s_nh s) (s_ah s) a o) as [nh ah] eqn:E.
+  destruct (compromise_frames _ _ _ _ _ _ E) as [F1 F2].
+  destruct (compromise_AttI _ _ _ _ _ _ _ _ E Ha Ho (wf_att s W)) as [T _].
+  apply WF_heaps; auto. intros b. apply F2.
+Qed.
+Lemma WF_undo s a o :
+  WF s -> In a (g_atts (s_g s)) -> In o (g_nodes (s_g s)) ->
+  WF (let '(nh, ah) := undo_compromise (s_nh s) (s_ah s) a o in mkSt nh ah (s_nn s) (s_na s) (s_g s)).
+Proof.
+  intros W Ha Ho. destruct (undo_compromise (s_nh s) (s_ah s) a o) as [nh ah] eqn:E.
+  destruct (undo_frames _ _ _ _ _ _ E) as [F1 F2].
+  destruct (undo_AttI _ _ _ _ _ _ _ _ E Ha Ho (wf_att s W)) as [T _].
+  apply WF_heaps; auto. intros b. apply F2.
+Qed.
+
+(* ------------------------------------------------------------------ attach_attackers *)
+Lemma attach_entries_spec g nodes atts a :
+  In a atts -> (forall k o, dget seqb (g_name2node g) k = Some o -> In o nodes) ->
+  forall names nh ah nh' ah', attach_entries g nh ah a names = (nh', ah') ->
+  AttI nodes atts (compf nh) (reachedf ah) (entryf ah) ->
+  AttI nodes atts (compf nh') (reachedf ah') (entryf ah') /\ NFrame nh nh' /\ AFrame ah ah'.
+Proof.
+  intros Ha Hidx. induction names as [|fn r IH]; intros nh ah nh' ah' E T; cbn in E.
+  - inversion E; subst. split; [auto|]. split; [apply NFrame_refl | apply AFrame_refl].
+  - destruct (dget seqb (g_name2node g) fn) as [o|] eqn:Ei; [|eauto].
+    destruct (compromise nh ah a o) as [nh1 ah1] eqn:Ec.
+    destruct (compromise_frames _ _ _ _ _ _ Ec) as [F1 F2].
+    destruct (compromise_AttI nodes atts _ _ _ _ _ _ Ec Ha (Hidx _ _ Ei) T) as [T1 _].
+    destruct (IH _ _ _ _ E T1) as (T2 & F3 & F4).
+    split; [auto|]. split; [eapply NFrame_trans; eauto | eapply AFrame_trans; eauto].
+Qed.
+
+Lemma add_attacker_ok s a i r e s' : add_attacker s a i r e = (s', Ok) -> In a (g_atts (s_g s')).
+Proof.
+  unfold add_attacker.
+  destruct (dhas Z.eqb _ _); [intros E; inversion E|].
+  destruct (reach_ids _ _ _ _ _) as [[nh1 ah1] ok1]. destruct (negb ok1); [intros E; inversion E|].
+  destruct (entry_ids _ _ _ _) as [ah2 ok2]. destruct (negb ok2); [intros E; inversion E|].
+  intros E; inversion E; subst; cbn. apply In_app_single; auto.
+Qed.
+
+Lemma WF_attach_one s name eps : WF s -> WF (fst (attach_one s name eps)).
+Proof.
+  intros W. unfold attach_one.
+  assert (W0 : WF (new_att s name)) by (apply WF_new_att; auto).
+  unfold new_att in W0.
+  match type of W0 with WF ?t => set (s0 := t) in * end.
+  assert (Na : ~ In (s_na s) (g_atts (s_g s0))).
+  { cbn. intros H. destruct (wf_alloc s W) as (_ & _ & _ & A). specialize (A _ H). lia. }
+  destruct (add_attacker s0 (s_na s) None [] []) as [s1 oc] eqn:E1.
+  assert (W1 : WF s1).
+  { replace s1 with (fst (add_attacker s0 (s_na s) None [] [])) by (rewrite E1; auto).
+    apply WF_add_attacker; auto; cbn; try lia; rewrite upda_same; auto. }
+  destruct oc; auto.
+  assert (Ha1 : In (s_na s) (g_atts (s_g s1))) by (eapply add_attacker_ok; eauto).
+  destruct (attach_entries (s_g s1) (s_nh s1) (s_ah s1) (s_na s) eps) as [nh2 ah2] eqn:E2.
+  assert (Hidx : forall k o, dget seqb (g_name2node (s_g s1)) k = Some o -> In o (g_nodes (s_g s1))).
+  { intros k o Hk. apply (wf_idx_name s1 W1) in Hk. tauto. }
+  destruct (attach_entries_spec (s_g s1) _ _ (s_na s) Ha1 Hidx _ _ _ _ _ E2 (wf_att s1 W1)) as (T2 & F1 & F2).
+  cbn [fst]. apply (WF_heaps s1); auto.
+  - intros b. unfold upda. destruct (Nat.eqb b (s_na s)); cbn; apply F2.
+  - destruct T2 as (A & B & Cc & D & F & G).
+    split; [|split; [|split; [|split; [|split]]]]; auto.
+    + intros b x Hb. replace (a_reached _) with (a_reached (ah2 b)) by ueq. eauto.
+    + intros b x Hb. unfold upda. destruct (Nat.eqb b (s_na s)); cbn; eauto.
+    + intros b x Hb Hx. replace (a_reached _) with (a_reached (ah2 b)) by ueq. apply D; auto.
+    + intros b Hb. replace (a_reached _) with (a_reached (ah2 b)) by ueq. auto.
+Qed.
+
+Lemma WF_attach : forall infos s, WF s -> WF (fst (attach_attackers s infos)).
+Proof.
+  induction infos as [|[name eps] r IH]; intros s W; cbn [attach_attackers]; auto.
+  destruct (seqb name ""); auto.
+  pose proof (WF_attach_one s name eps W) as W1.
+  destruct (attach_one s name eps) as [s1 oc]. cbn in W1. destruct oc; auto.
+Qed.
+
+(* ------------------------------------------------------------------ deepcopy *)
+Lemma index_of_lt x l : In x l -> index_of x l < List.length l.
+Proof.
+  induction l as [|a r IH]; cbn; [tauto|]. intros H. destruct (Nat.eqb_spec x a); [lia|].
+  destruct H as [->|H]; [congruence|]. specialize (IH H). lia.
+Qed.
+Lemma nth_index_of x l : In x l -> nth (index_of x l) l 0 = x.
+Proof.
+  induction l as [|a r IH]; cbn; [tauto|]. intros H. destruct (Nat.eqb_spec x a); [auto|].
+  destruct H as [->|H]; [congruence|]. auto.
+Qed.
+Lemma index_of_inj x y l : In x l -> In y l -> index_of x l = index_of y l -> x = y.
+Proof. intros Hx Hy E. rewrite <- (nth_index_of x l Hx), <- (nth_index_of y l Hy), E. reflexivity. Qed.
+
+Section InjOn.
+Variable f : nat -> nat.
+Variable dom : list nat.
+Hypothesis inj : forall x y, In x dom -> In y dom -> f x = f y -> x = y.
+Lemma In_map_inj_on x l : In x dom -> incl l dom -> (In (f x) (map f l) <-> In x l).
+Proof.
+  intros Hx Hl. split; [|apply in_map]. intros H. apply in_map_iff in H. destruct H as (y & E & Hy).
+  apply inj in E; auto. subst; auto.
+Qed.
+Lemma cnt_map_inj_on x l : In x dom -> incl l dom -> cnt (map f l) (f x) = cnt l x.
+Proof.
+  intros Hx. induction l as [|a r IH]; intros Hl; cbn; auto.
+  assert (Ha : In a dom) by (apply Hl; left; auto).
+  assert (Hr : incl r dom) by (intros z Hz; apply Hl; right; auto).
+  destruct (Nat.eq_dec (f a) (f x)) as [E|N], (Nat.eq_dec a x) as [E'|N']; auto.
+  - apply inj in E; auto. congruence.
+  - subst. congruence.
+Qed.
+Lemma NoDup_map_inj_on l : incl l dom -> NoDup l -> NoDup (map f l).
+Proof.
+  induction l as [|a r IH]; intros Hl H; cbn; [constructor|]. inversion H; subst.
+  assert (Ha : In a dom) by (apply Hl; left; auto).
+  assert (Hr : incl r dom) by (intros z Hz; apply Hl; right; auto).
+  constructor; auto. rewrite In_map_inj_on; auto.
+Qed.
+End InjOn.
+
+Lemma dget_map_vals {K} (keqb : K -> K -> bool) (f : nat -> nat) (d : list (K * nat)) k :
+  dget keqb (map (fun kv => (fst kv, f (snd kv))) d) k = option_map f (dget keqb d k).
+Proof. induction d as [|[k' v] r IH]; cbn; auto. destruct (keqb k k'); auto. Qed.
+Lemma dkeys_map_vals {K} (f : nat -> nat) (d : list (K * nat)) :
+  dkeys (map (fun kv => (fst kv, f (snd kv))) d) = dkeys d.
+Proof. unfold dkeys. rewrite map_map. reflexivity. Qed.
+
+Lemma Idx_map {K} (keqb : K -> K -> bool) objs key d (f : nat -> nat) key' :
+  (forall x y, In x objs -> In y objs -> f x = f y -> x = y) ->
+  (forall o, In o objs -> key' (f o) = key o) ->
+  Idx keqb objs key d -> Idx keqb (map f objs) key' (map (fun kv => (fst kv, f (snd kv))) d).
+Proof.
+  intros inj Hk (A & B & N). split; [|split].
+  - intros k o'. rewrite dget_map_vals. destruct (dget keqb d k) as [o|] eqn:E; cbn; [|discriminate].
+    intros E'; inversion E'; subst. destruct (A _ _ E) as [Ho Hko]. split; [apply in_map; auto|].
+    rewrite Hk; auto.
+  - intros o' Ho'. apply in_map_iff in Ho'. destruct Ho' as (o & <- & Ho).
+    destruct (B o Ho) as (k & Hko & Hd). exists k. rewrite Hk by auto. split; auto.
+    rewrite dget_map_vals, Hd. reflexivity.
+  - rewrite dkeys_map_vals. auto.
+Qed.
+
+Lemma WF_deepcopy s : WF s -> WF (deepcopy s).
+Proof.
+  intros W. pose proof W as [A S T I1 I2 I3 B1 B2].
+  destruct A as (NdN & NdA & AlN & AlA).
+  set (nodes := g_nodes (s_g s)) in *. set (atts := g_atts (s_g s)) in *.
+  set (mn := fun o => s_nn s + index_of o nodes).
+  set (ma := fun a => s_na s + index_of a atts).
+  assert (injn : forall x y, In x nodes -> In y nodes -> mn x = mn y -> x = y).
+  { intros x y Hx Hy E. unfold mn in E. apply (index_of_inj x y nodes); auto. lia. }
+  assert (inja : forall x y, In x atts -> In y atts -> ma x = ma y -> x = y).
+  { intros x y Hx Hy E. unfold ma in E. apply (index_of_inj x y atts); auto. lia. }
+  assert (NH : forall o, In o nodes ->
+     s_nh (deepcopy s) (mn o) =
+     let n := s_nh s o in
+     mkNode (n_type n) (n_name n) (n_id n) (n_asset n) (map mn (n_children n)) (map mn (n_parents n))
+            (map ma (n_comp n)) (n_def n) (n_exist n) (n_viable n) (n_necessary n) (n_mitre n)
+            (n_ttc n) (n_tags n) (n_extras n)).
+  { intros o Ho. pose proof (index_of_lt o nodes Ho) as L.
+    assert (C1 : Nat.leb (s_nn s) (mn o) = true) by (apply Nat.leb_le; unfold mn; lia).
+    assert (C2 : Nat.ltb (mn o) (s_nn s + List.length nodes) = true) by (apply Nat.ltb_lt; unfold mn; lia).
+    assert (C3 : nth (mn o - s_nn s) nodes 0 = o).
+    { replace (mn o - s_nn s) with (index_of o nodes) by (unfold mn; lia). apply nth_index_of; auto. }
+    unfold deepcopy. cbn [s_nh]. fold nodes. rewrite C1, C2. cbn [andb]. rewrite C3. reflexivity. }
+  assert (AH : forall a, In a atts ->
+     s_ah (deepcopy s) (ma a) =
+     let x := s_ah s a in mkAtt (a_name x) (a_id x) (map mn (a_entry x)) (map mn (a_reached x))).
+  { intros a Ha. pose proof (index_of_lt a atts Ha) as L.
+    assert (C1 : Nat.leb (s_na s) (ma a) = true) by (apply Nat.leb_le; unfold ma; lia).
+    assert (C2 : Nat.ltb (ma a) (s_na s + List.length atts) = true) by (apply Nat.ltb_lt; unfold ma; lia).
+    assert (C3 : nth (ma a - s_na s) atts 0 = a).
+    { replace (ma a - s_na s) with (index_of a atts) by (unfold ma; lia). apply nth_index_of; auto. }
+    unfold deepcopy. cbn [s_ah]. fold atts. rewrite C1, C2. cbn [andb]. rewrite C3. reflexivity. }
+  destruct S as (S1 & S2 & S3). destruct T as (T1 & T2 & T3 & T4 & T5 & T6).
+  unfold ch_of, pa_of, comp_of, reached_of, entry_of in *.
+  assert (Gn : g_nodes (s_g (deepcopy s)) = map mn nodes) by reflexivity.
+  assert (Ga : g_atts (s_g (deepcopy s)) = map ma atts) by reflexivity.
+  constructor; rewrite ?Gn, ?Ga.
+  - split; [apply (NoDup_map_inj_on mn nodes); auto; apply incl_refl|].
+    split; [apply (NoDup_map_inj_on ma atts); auto; apply incl_refl|]. split.
+    + intros o' Ho'. apply in_map_iff in Ho'. destruct Ho' as (o & <- & Ho). cbn.
+      pose proof (index_of_lt o nodes Ho). unfold mn. fold nodes. lia.
+    + intros a' Ha'. apply in_map_iff in Ha'. destruct Ha' as (a & <- & Ha). cbn.
+      pose proof (index_of_lt a atts Ha). unfold ma. fold atts. lia.
+  - unfold ch_of, pa_of. split; [|split].
+    + intros o' c' Ho'. apply in_map_iff in Ho'. destruct Ho' as (o & <- & Ho). cbv beta. rewrite NH by auto. cbn.
+      intros Hc. apply in_map_iff in Hc. destruct Hc as (c & <- & Hc). apply in_map. eauto.
+    + intros o' p' Ho'. apply in_map_iff in Ho'. destruct Ho' as (o & <- & Ho). cbv beta. rewrite NH by auto. cbn.
+      intros Hp. apply in_map_iff in Hp. destruct Hp as (p & <- & Hp). apply in_map. eauto.
+    + intros p' c' Hp' Hc'. apply in_map_iff in Hp'. apply in_map_iff in Hc'.
+      destruct Hp' as (p & <- & Hp), Hc' as (c & <- & Hc). cbv beta. rewrite !NH by auto. cbn.
+      rewrite (cnt_map_inj_on mn nodes injn), (cnt_map_inj_on mn nodes injn); auto.
+      * intros z Hz. eauto.
+      * intros z Hz. eauto.
+  - unfold comp_of, reached_of, entry_of. split; [|split; [|split; [|split; [|split]]]].
+    + intros o' a' Ho'. apply in_map_iff in Ho'. destruct Ho' as (o & <- & Ho). cbv beta. rewrite NH by auto. cbn.
+      intros Hc. apply in_map_iff in Hc. destruct Hc as (a & <- & Hc). apply in_map. eauto.
+    + intros a' o' Ha'. apply in_map_iff in Ha'. destruct Ha' as (a & <- & Ha). cbv beta. rewrite AH by auto. cbn.
+      intros Hc. apply in_map_iff in Hc. destruct Hc as (o & <- & Hc). apply in_map. eauto.
+    + intros a' o' Ha'. apply in_map_iff in Ha'. destruct Ha' as (a & <- & Ha). cbv beta. rewrite AH by auto. cbn.
+      intros Hc. apply in_map_iff in Hc. destruct Hc as (o & <- & Hc). apply in_map. eauto.
+    + intros a' o' Ha' Ho'. apply in_map_iff in Ha'. apply in_map_iff in Ho'.
+      destruct Ha' as (a & <- & Ha), Ho' as (o & <- & Ho). cbv beta. rewrite NH, AH by auto. cbn.
+      rewrite (In_map_inj_on ma atts inja), (In_map_inj_on mn nodes injn); auto.
+      * intros z Hz. eauto.
+      * intros z Hz. eauto.
+    + intros o' Ho'. apply in_map_iff in Ho'. destruct Ho' as (o & <- & Ho). cbv beta. rewrite NH by auto. cbn.
+      apply (NoDup_map_inj_on ma atts inja); auto. intros z Hz. eauto.
+    + intros a' Ha'. apply in_map_iff in Ha'. destruct Ha' as (a & <- & Ha). cbv beta. rewrite AH by auto. cbn.
+      apply (NoDup_map_inj_on mn nodes injn); auto. intros z Hz. eauto.
+  - apply (Idx_map Z.eqb nodes (id_of s) (g_id2node (s_g s)) mn); auto. intros o Ho. unfold id_of. rewrite NH by auto. reflexivity.
+  - apply (Idx_map seqb nodes (fn_of s) (g_name2node (s_g s)) mn); auto. intros o Ho. unfold fn_of. rewrite NH by auto. reflexivity.
+  - apply (Idx_map Z.eqb atts (aid_of s) (g_id2att (s_g s)) ma); auto. intros a Ha. unfold aid_of. rewrite AH by auto. reflexivity.
+  - intros k Hk. change (In k (dkeys (map (fun kv => (fst kv, mn (snd kv))) (g_id2node (s_g s))))) in Hk.
+    rewrite dkeys_map_vals in Hk. apply B1; auto.
+  - intros k Hk. change (In k (dkeys (map (fun kv => (fst kv, ma (snd kv))) (g_id2att (s_g s))))) in Hk.
+    rewrite dkeys_map_vals in Hk. apply B2; auto.
+Qed.
+
+(* ------------------------------------------------------------------ every step preserves WF *)
+Lemma WF_init : WF init.
+Proof.
+  constructor; cbn.
+  - repeat split; try constructor; intros ? [].
+  - repeat split; intros; contradiction.
+  - split; [|split; [|split; [|split; [|split]]]]; intros; contradiction.
+  - split; [|split]; [intros; discriminate | intros ? [] | constructor].
+  - split; [|split]; [intros; discriminate | intros ? [] | constructor].
+  - split; [|split]; [intros; discriminate | intros ? [] | constructor].
+  - intros ? [].
+  - intros ? [].
+Qed.
+
+Lemma in_graph_In s o : in_graph s o = true <-> In o (g_nodes (s_g s)).
+Proof. apply memn_In. Qed.
+Lemma att_in_graph_In s a : att_in_graph s a = true <-> In a (g_atts (s_g s)).
+Proof. apply memn_In. Qed.
+
+Theorem step_WF s o : WF s -> WF (fst (fst (step s o))).
+Proof.
+  intros W. unfold step. destruct (guard s o) eqn:G; cbn [negb]; [|auto].
+  destruct o; cbn [guard] in G.
+  - (* ONew *) cbn. apply WF_new_node; auto.
+  - (* OAddNode *)
+    apply andb_true_iff in G. destruct G as [G G4]. apply andb_true_iff in G. destruct G as [G G3].
+    apply andb_true_iff in G. destruct G as [G1 G2].
+    apply Nat.ltb_lt in G1. apply negb_true_iff in G2.
+    assert (No : ~ In o (g_nodes (s_g s))) by (rewrite <- in_graph_In; congruence).
+    destruct (n_children (s_nh s o)) eqn:E1; [|discriminate].
+    destruct (n_parents (s_nh s o)) eqn:E2; [|discriminate].
+    destruct (n_comp (s_nh s o)) eqn:E3; [|discriminate].
+    pose proof (WF_add_node s o i W G1 No E1 E2 E3) as L.
+    destruct (add_node s o i) as [s' oc]. cbn in *. apply L. clear L.
+    unfold dhas in G4.
+    destruct (n_asset (s_nh s o)) eqn:Ea.
+    + replace (full_name (set_id (s_nh s o) _)) with (full_name (s_nh s o)) by (unfold full_name; cbn; rewrite Ea; auto).
+      destruct (dget seqb (g_name2node (s_g s)) (full_name (s_nh s o))); auto; discriminate.
+    + match goal with |- ?x = None => destruct x end; auto; discriminate.
+  - (* ORemoveNode *)
+    apply in_graph_In in G. pose proof (WF_remove_node s o W G) as [L _].
+    destruct (remove_node s o) as [s' oc]. exact L.
+  - (* OLink *)
+    apply andb_true_iff in G. destruct G as [G1 G2]. apply in_graph_In in G1, G2. cbn. apply WF_link; auto.
+  - (* ONewAtt *) cbn. apply WF_new_att; auto.
+  - (* OAddAtt *)
+    apply andb_true_iff in G. destruct G as [G G4]. apply andb_true_iff in G. destruct G as [G G3].
+    apply andb_true_iff in G. destruct G as [G1 G2].
+    apply Nat.ltb_lt in G1. apply negb_true_iff in G2.
+    assert (Na : ~ In a (g_atts (s_g s))) by (rewrite <- att_in_graph_In; congruence).
+    destruct (a_entry (s_ah s a)) eqn:E1; [|discriminate].
+    destruct (a_reached (s_ah s a)) eqn:E2; [|discriminate].
+    pose proof (WF_add_attacker s a i reached entry W G1 Na E1 E2 G4) as L.
+    destruct (add_attacker s a i reached entry) as [s' oc]. exact L.
+  - (* ORemoveAtt *)
+    apply att_in_graph_In in G. pose proof (WF_remove_attacker s a W G) as L.
+    destruct (remove_attacker s a) as [s' oc]. exact L.
+  - (* OCompromise *)
+    apply andb_true_iff in G. destruct G as [G1 G2]. apply att_in_graph_In in G1. apply in_graph_In in G2.
+    pose proof (WF_compromise s a o W G1 G2) as L.
+    destruct (compromise (s_nh s) (s_ah s) a o) as [nh ah]. exact L.
+  - (* OUndo *)
+    apply andb_true_iff in G. destruct G as [G1 G2]. apply att_in_graph_In in G1. apply in_graph_In in G2.
+    pose proof (WF_undo s a o W G1 G2) as L.
+    destruct (undo_compromise (s_nh s) (s_ah s) a o) as [nh ah]. exact L.
+  - (* OAttach *)
+    pose proof (WF_attach infos s W) as L. destruct (attach_attackers s infos) as [s' oc]. exact L.
+  - (* OCalc *)
+    pose proof (WF_calc s W) as L. destruct (calc s) as [s' oc]. exact L.
+  - (* OPrune *) cbn. apply WF_prune; auto.
+  - (* OSetFlags *) cbn. apply WF_with_nh; auto; intros n; cbn; auto 6.
+  - (* OSetTtc *) cbn. apply WF_with_nh; auto; intros n; cbn; auto 6.
+  - (* OSetTags *) cbn. apply WF_with_nh; auto; intros n; cbn; auto 6.
+  - (* OSetExtras *) cbn. apply WF_with_nh; auto; intros n; cbn; auto 6.
+  - (* OCopy *) cbn. apply WF_deepcopy; auto.
+  - cbn; auto.
+  - cbn; auto.
+  - cbn; auto.
+  - cbn; auto.
+  - cbn; auto.
+Qed.
+
+Definition steps (s : st) (ops : list op) : st := fold_left (fun s o => fst (fst (step s o))) ops s.
+Lemma run_steps ops : forall s outs,
+  fst (fold_left (fun '(s, outs) o => let '(s', oc, r) := step s o in (s', outs ++ [(oc, r)])) ops (s, outs)) = steps s ops.
+Proof.
+  induction ops as [|o r IH]; intros s outs; cbn [fold_left]; auto.
+  destruct (step s o) as [[s' oc] rt] eqn:E. rewrite IH. unfold steps. cbn [fold_left]. rewrite E. reflexivity.
+Qed.
+Lemma final_steps ops : final ops = steps init ops.
+Proof. unfold final, run. apply run_steps. Qed.
+
+Theorem steps_WF ops : forall s, WF s -> WF (steps s ops).
+Proof. induction ops as [|o r IH]; intros s W; cbn [steps fold_left]; auto. apply IH. apply step_WF; auto. Qed.
+Theorem reachable_WF ops : WF (final ops).
+Proof. rewrite final_steps. apply steps_WF. apply WF_init. Qed.
